@@ -7,7 +7,7 @@ ROOT = os.path.dirname(os.path.dirname(os.path.abspath(__file__)))
 CHECKS = {
  "C01": ("reference-model oracle at the API boundary: full accessor sweep of index(push(v)) over a typed catalogue of 102 compositions, default and statistics-trained regions, two build profiles", "5/C01"),
  "C02": ("reference-model oracle: all issued indices re-read after every operation of random, long and bounded-exhaustive histories (push / reserve_items / reserve_regions / FlatStack::reserve), two build profiles", "5/C02"),
- "C03": ("reference-model oracle: FlatStack vs Vec model after every operation (len, get, iterators, size hints, Debug, out-of-bounds must panic) for every index container, two build profiles", "5/C03"),
+ "C03": ("reference-model oracle: FlatStack vs Vec model after every operation (len, is_empty, get, iterators incl. nth / skip / step_by, size hints, out-of-bounds must panic) for every index container, two build profiles", "5/C03"),
  "C04": ("in-crate UTF-8 probe at the unchecked conversion (hook) read after every operation + byte equality of every returned &str + run-time entry-point probe of the compiled Push impls; Miri tier in thorough", "5/C04"),
  "C05": ("bounded-exhaustive enumeration of push/clear sequences against a Vec model and a u128 stride acceptor, long structured random sequences, cross-profile digest comparison", "5/C05"),
  "C06": ("reference-model oracle for the Huffman container: measured code lengths vs independent optimal-cost reference, index arithmetic, bounded decode of every item at every bit alignment, refusal of unknown symbols; bounded-exhaustive small alphabets", "5/C06"),
